@@ -33,6 +33,8 @@ func main() {
 		cmdMercAgg(*seed, *n, *out, *replay, *tier)
 	case "history":
 		cmdHistory(*seed, *n, *out, *replay, *tier)
+	case "determinism":
+		cmdDeterminism(*seed, *n, *out, *replay, *tier)
 	case "agg":
 		cmdAgg(*seed, *n, *out, *replay, *kinds, *tier)
 	default:
